@@ -337,7 +337,7 @@ func TestC02(t *testing.T) {
 			"on seeded value sets in three modes (distinct leaves / random / edge: nil pointers, nil-empty-shared-backing slices, zero and extreme scalars, empty and non-ASCII strings, nil maps/interfaces/funcs/chans), arg style and :reverse starting from a pre-filled destination. " +
 			"Oracle: no panic; every destination leaf equals the reference (untouched leaves keep the previous / zero value); source operand and additional arguments equal their snapshots; instrumented getters/String/converters/hooks are called as the plan says (multiset) with equal arguments. " +
 			"Non-trivial: a function with at least one non-identity leaf (conversion, getter, converter, nested, slice) that was run on an edge-mode value set; evaluations = executed value sets; distinct by program text.",
-		quick: 160, thorough: 5000, valuesQ: 12, valuesT: 60, pf: pf,
+		quick: 560, thorough: 8000, valuesQ: 12, valuesT: 48, pf: pf,
 		nontrivial: func(p *pg.Prog, r *behResult) bool {
 			edge := 0
 			for _, st := range r.Stats {
@@ -355,7 +355,7 @@ func TestC06(t *testing.T) {
 		rule: "rapid-generated methods carrying 0-4 explicit notations each: :skip exact and /regexp/ in both case modes, :map with field / getter-chain / embedded / $n[.path] sources, :conv with generated converters (by value, by pointer, with error) and zoo converters (local, imported, odd-layout packages), :literal from a table of well-typed literals; destination paths top-level and nested (also under structs that are assignable as a whole), skip-vs-explicit conflicts. " +
 			"Oracle: structural - a skipped path is never written (itself, an ancestor or a member), an explicitly named path is written from exactly the named source / converter / literal or reported `no match` only if the harness's resolver (go/types lookups with accessibility, addressability and getter-shape rules) cannot resolve or type the source; " +
 			"behavioural - executed against the reference function with distinct-leaf value sets, converters record their argument and return a random value planted by the driver. Non-trivial: a method with a nested-path notation, a skip/explicit conflict, a $n source or a regexp under :case:off; evaluations = executed value sets.",
-		quick: 120, thorough: 4000, valuesQ: 9, valuesT: 45, pf: pf, extraStructural: []string{"C06"},
+		quick: 560, thorough: 8000, valuesQ: 9, valuesT: 36, pf: pf, extraStructural: []string{"C06"},
 		nontrivial: func(p *pg.Prog, r *behResult) bool {
 			for _, m := range p.AllMethods() {
 				for _, n := range m.Notes {
@@ -379,7 +379,7 @@ func TestC07(t *testing.T) {
 		rule: "rapid-generated methods with error result and k >= 1 error-capable call sites - (T, error) converters on top-level and nested destination paths, (T, error) getters through :map, pre/post hooks returning error - in all styles, plus methods without error result that name error-capable functions. " +
 			"Oracle: fault enumeration inside the generated package - the no-fault run must return nil; then, for the first six value sets, every error-capable call site of the no-fault trace (up to eight) is made to return a unique sentinel in turn: the function must return that very value (==) and the instrumented trace must stop at the failing call; " +
 			"structurally, a function without error result must not contain an assignment of the form `x, err = ...` nor an error-returning hook. Non-trivial: function with k >= 2 sites, a site on a nested path, or hook + converter; evaluations = value-set runs + fault runs.",
-		quick: 140, thorough: 4000, valuesQ: 6, valuesT: 12, pf: pf,
+		quick: 560, thorough: 8000, valuesQ: 6, valuesT: 12, pf: pf,
 		nontrivial: func(p *pg.Prog, r *behResult) bool {
 			for _, st := range r.Stats {
 				if st["error_sites"] >= 2 {
@@ -399,7 +399,7 @@ func TestC16(t *testing.T) {
 		rule: "(a) complete matrix of ordered element-type pairs over the slice alphabet (identical basic, named, struct, pointer, interface elements; assignable-not-identical such as T into interface{}; convertible under :typecast; not convertible; local and imported; named slice types) as same-named fields, reached through fields and through getters, with :typecast on and off; " +
 			"(b) rapid struct pairs restricted to slice and basic field types. Every generated function is executed on value sets with nil, empty non-nil, length 1-4, cap > len and shared-backing-array slices: after the call elements equal the (converted) source elements, " +
 			"writing to every source element afterwards leaves the destination unchanged and vice versa, a nil source leaves the field as it was or nil; structurally no element conversion without :typecast. Non-trivial: a pair that is not identical-basic or a value set with nil / shared backing; evaluations = executed value sets.",
-		quick: 60, thorough: 2500, valuesQ: 12, valuesT: 60, pf: pf, extraStructural: nil, extra: c16Matrix,
+		quick: 240, thorough: 5000, valuesQ: 12, valuesT: 60, pf: pf, extraStructural: nil, extra: c16Matrix,
 		nontrivial: func(p *pg.Prog, r *behResult) bool {
 			for _, st := range r.Stats {
 				if st["alias_probes"] > 0 {
@@ -609,7 +609,7 @@ func c10Enumeration(env *hx.Env, rec *hx.Recorder, t *testing.T, judge func(*pg.
 	rec.Extra["hook_method_combinations"] = len(all)
 	rec.Extra["legal"] = len(legal)
 	rec.Extra["must_reject"] = len(illegal)
-	stride := env.Pick(6, 1)
+	stride := env.Pick(3, 1)
 	const per = 16
 	batchNo := 0
 	for b := 0; b*per < len(legal); b++ {
@@ -701,11 +701,11 @@ func TestC10(t *testing.T) {
 	pf.Notations = true
 	pf.HookHeavy = true
 	runBehavioural(t, behOpts{id: "C10", level: "exploration",
-		rule: "(a) enumeration of hook shape {destination by pointer/value} x {source by pointer/value} x {error} x {additional parameters} x position {pre, post, both} x method shape {style, receiver, source pointer/value, destination pointer/value, error result, 0-2 additional arguments (int, *LInner)} = 4608 combinations plus 1152 with additional parameters of the opposite pointer-ness (thorough: all; quick: a seeded sixth): " +
+		rule: "(a) enumeration of hook shape {destination by pointer/value} x {source by pointer/value} x {error} x {additional parameters} x position {pre, post, both} x method shape {style, receiver, source pointer/value, destination pointer/value, error result, 0-2 additional arguments (int, *LInner)} = 4608 combinations plus 1152 with additional parameters of the opposite pointer-ness (thorough: all; quick: a seeded third): " +
 			"fitting combinations are generated 16 methods per file and executed - hooks are instrumented (record a deep dump of every argument and the pointer identities; a by-pointer preprocess hook overwrites every destination field) - unfit hooks (error without error result, additional parameters the method lacks) must be rejected; " +
 			"(b) rapid programs with hooks next to notations, imported hooks (odd-layout package) and all non-reverse shapes. Oracle: trace starts with the pre hook and ends with the post hook, each exactly once; what each hook observed (values, operand identity W/R/other, extras in order) equals what the reference observed; " +
 			"fields the copy assigns overwrite the pre hook's values, unassigned fields keep them; the post hook sees the final state. Non-trivial: hook whose pointer-ness differs from the operand's, or with extras, or imported; evaluations = executed value sets.",
-		quick: 60, thorough: 2500, valuesQ: 6, valuesT: 24, pf: pf, extra: c10Enumeration,
+		quick: 320, thorough: 5000, valuesQ: 6, valuesT: 24, pf: pf, extra: c10Enumeration,
 		nontrivial: func(p *pg.Prog, r *behResult) bool {
 			for _, st := range r.Stats {
 				if st["hook_calls"] > 0 {
